@@ -27,6 +27,7 @@ type Violation struct {
 	What   string   `json:"what"`
 	Ops    []string `json:"ops,omitempty"`
 	Detail string   `json:"detail,omitempty"`
+	Case   any      `json:"case,omitempty"` // structured replay input (server-level checks)
 }
 
 // Mismatch is a disagreement between the Lean model and the implementation.
